@@ -116,6 +116,42 @@ theorem selfWords_deSelf (self : Option Shape) (ws : List UInt64) (cells : List 
     simp only [selfWords, deSelf, SNode.selfv, CanonSelf, this.1]
     exact ⟨by rw [← h, List.take_length], hasShape_unflat sh ws⟩
 
+theorem canonSelf_selfOkS (self : Option Shape) (st : SNode) (h : CanonSelf self st.selfv) : SelfOkS self st := by
+  cases self with
+  | none =>
+    cases hv : st.selfv with
+    | none => simp [SelfOkS, hv]
+    | some v => simp [hv, CanonSelf] at h
+  | some sh =>
+    intro v hv
+    rw [hv] at h
+    simpa [CanonSelf] using h
+
+theorem selfOkS_selfOk (self : Option Shape) (st : SNode) (h : SelfOkS self st) : SelfOk self st := by
+  intro v hv
+  cases self with
+  | none => simp [SelfOkS, hv] at h
+  | some sh => simpa [selfSize] using hasShape_length sh v (h v hv)
+
+mutual
+theorem confS_conf : ∀ (c : LCell) (st : SNode), ConfS c st → Conf c st
+  | .mem _, _, _ => by simp [Conf]
+  | .delay _ _, _, h => by simpa [Conf, ConfS] using h
+  | .child s self cells, st, h => by
+    simp only [ConfS] at h
+    simp only [Conf]
+    exact ⟨selfOkS_selfOk _ _ h.1, confSL_confL cells _ h.2⟩
+theorem confSL_confL : ∀ (cs : List LCell) (st : SNode), ConfSL cs st → ConfL cs st
+  | [], _, _ => by simp [ConfL]
+  | c :: cs, st, h => by
+    simp only [ConfSL] at h
+    simp only [ConfL]
+    exact ⟨confS_conf c st h.1, confSL_confL cs st h.2⟩
+end
+
+theorem conformsS_conforms (lay : LNode) (st : SNode) (h : ConformsS lay st) : Conforms lay st :=
+  ⟨selfOkS_selfOk _ _ h.1, confSL_confL _ _ h.2⟩
+
 /-! ### deserialize ∘ serialize -/
 
 theorem canon_site (c : LCell) (x : Nat × SCell) (h : CanonCell c x) : x.1 = c.site := by
@@ -129,18 +165,18 @@ theorem drop_left' {α} (a b : List α) (n : Nat) (h : a.length = n) : (a ++ b).
 
 mutual
 theorem de_ser_cell : ∀ (c : LCell) (x : Nat × SCell) (st : SNode), CanonCell c x → LayOk c →
-    lookupCell st.cells c.site = some x.2 → deCell c (serCell c st) = x ∧ Conf c st
+    lookupCell st.cells c.site = some x.2 → deCell c (serCell c st) = x ∧ ConfS c st
   | .mem s, (k, .mem w), st, hc, _, hl => by
     simp only [CanonCell] at hc
     simp only [LCell.site] at hl
     subst hc
-    simp [serCell, deCell, SNode.memAt, hl, Conf]
+    simp [serCell, deCell, SNode.memAt, hl, ConfS]
   | .delay s n, (k, .delay r), st, hc, _, hl => by
     simp only [CanonCell] at hc
     simp only [LCell.site] at hl
     obtain ⟨rfl, h1, h2, h3⟩ := hc
     have hr : st.ringAt n k = r := by simp [SNode.ringAt, hl]
-    simp only [serCell, deCell, Conf, hr]
+    simp only [serCell, deCell, ConfS, hr]
     refine ⟨?_, h1, h2, h3⟩
     simp [Ring.words, toNat_toUInt64_of_lt _ h2, toNat_toUInt64_of_lt _ h3, ← h1]
   | .child s self cells, (k, .child nd), st, hc, hlay, hl => by
@@ -152,8 +188,8 @@ theorem de_ser_cell : ∀ (c : LCell) (x : Nat × SCell) (st : SNode), CanonCell
     have ih := de_ser_cells cells nd.cells nd h2 hlay (fun _ _ => rfl)
     have hso := canonSelf_selfOk self nd h1
     have hlen := selfWords_length self nd hso
-    simp only [serCell, deCell, Conf, hch]
-    refine ⟨?_, hso, ih.2⟩
+    simp only [serCell, deCell, ConfS, hch]
+    refine ⟨?_, canonSelf_selfOkS self nd h1, ih.2⟩
     rw [take_left' _ _ _ hlen, drop_left' _ _ _ hlen, deSelf_selfWords self nd h1, ih.1]
     cases nd; rfl
   | .mem _, (_, .delay _), _, hc, _, _ => by simp [CanonCell] at hc
@@ -163,8 +199,8 @@ theorem de_ser_cell : ∀ (c : LCell) (x : Nat × SCell) (st : SNode), CanonCell
   | .child _ _ _, (_, .mem _), _, hc, _, _ => by simp [CanonCell] at hc
   | .child _ _ _, (_, .delay _), _, hc, _, _ => by simp [CanonCell] at hc
 theorem de_ser_cells : ∀ (cs : List LCell) (xs : List (Nat × SCell)) (st : SNode), CanonCells cs xs → LayOkL cs →
-    (∀ s ∈ sitesOf cs, lookupCell st.cells s = lookupCell xs s) → deCells cs (serCells cs st) = xs ∧ ConfL cs st
-  | [], [], _, _, _, _ => by simp [deCells, ConfL]
+    (∀ s ∈ sitesOf cs, lookupCell st.cells s = lookupCell xs s) → deCells cs (serCells cs st) = xs ∧ ConfSL cs st
+  | [], [], _, _, _, _ => by simp [deCells, ConfSL]
   | [], _ :: _, _, hc, _, _ => by simp [CanonCells] at hc
   | _ :: _, [], _, hc, _, _ => by simp [CanonCells] at hc
   | c :: cs, x :: xs, st, hc, hlay, hl => by
@@ -188,14 +224,17 @@ theorem de_ser_cells : ∀ (cs : List LCell) (xs : List (Nat × SCell)) (st : SN
       simp [lookupCell, this]
     have h1 := de_ser_cell c x st hc.1 hl1 hhead
     have h2 := de_ser_cells cs xs st hc.2 hl2 htail
-    have hlen := serCell_length c st h1.2
-    simp only [serCells, deCells, ConfL]
+    have hlen := serCell_length c st (confS_conf c st h1.2)
+    simp only [serCells, deCells, ConfSL]
     rw [take_left' _ _ _ hlen, drop_left' _ _ _ hlen, h1.1, h2.1]
     exact ⟨rfl, h1.2, h2.2⟩
 end
 
+theorem canon_conformsS (lay : LNode) (st : SNode) (hl : lay.Ok) (h : Canon lay st) : ConformsS lay st :=
+  ⟨canonSelf_selfOkS _ _ h.1, (de_ser_cells lay.cells st.cells st h.2 hl (fun _ _ => rfl)).2⟩
+
 theorem canon_conforms (lay : LNode) (st : SNode) (hl : lay.Ok) (h : Canon lay st) : Conforms lay st :=
-  ⟨canonSelf_selfOk _ _ h.1, (de_ser_cells lay.cells st.cells st h.2 hl (fun _ _ => rfl)).2⟩
+  conformsS_conforms lay st (canon_conformsS lay st hl h)
 
 theorem deserialize_serialize (lay : LNode) (st : SNode) (hl : lay.Ok) (h : Canon lay st) :
     deserialize lay (serialize lay st) = st := by
